@@ -36,6 +36,13 @@ class CallGen:
     def operator(self, cu, cx, op, lu, lx):
         """a stream operator on a typed collection - its function given positionally or under the name ObjectStream declares:
         either way the call keeps exactly what the user wrote"""
+        if self.r.random() < 0.08:
+            # ... and the library's operators that take no function (MetaData, QMetaData), written with or without their keyword
+            self.plain_ops = getattr(self, "plain_ops", 0) + 1
+            name, kw = self.r.choice([("MetaData", "metadata"), ("MetaData", None), ("QMetaData", "metadata"), ("QMetaData", None)])
+            d = ast.Dict(keys=[C("k")], values=[C(self.r.randint(1, 9))])
+            mk = lambda recv: ast.Call(func=attr(recv, name), args=[] if kw else [astx.clone(d)], keywords=[ast.keyword(arg=kw, value=astx.clone(d))] if kw else [])  # noqa
+            cu, cx = mk(cu), mk(cx)
         if self.r.random() < 0.12:
             self.kw_ops = getattr(self, "kw_ops", 0) + 1
             k = OPERATOR_FUNCTION_KEYWORD[op]
@@ -278,6 +285,7 @@ def run_case(ctx, rnd, model, ds, i):
     ctx.count("outcome:emitted")
     ctx.count("call-sites", len(g.sites))
     ctx.count("operators-with-keyword-function", getattr(g, "kw_ops", 0))
+    ctx.count("operators-without-function", getattr(g, "plain_ops", 0))
     ctx.count("methods-inherited-from-python-types", getattr(g, "builtin_base", 0))
     ctx.count(f"receiver-name:{model.receiver}")
     for n, d in g.sites:
